@@ -81,3 +81,14 @@ def c16(res: CheckResult) -> None:
     call_unit(res, "several falsy contracts (groups, stacks, levels) x all truth assignments",
               list(F.fam_order(res.tier, rng)), ic, require_outcomes=["Violation", "ErrInst", "ErrFact"])
     random_unit(res, "random programs beyond the exhaustive bounds", list(F.fam_random(res.tier, rng, "order")), ic)
+
+
+@check("C03")
+def c03(res: CheckResult) -> None:
+    ic = C.load_icontract()
+    rng = random.Random(res.seed)
+    res.assumptions = COMMON_ASSUMPTIONS
+    call_unit(res, "invariants around operations (member kinds x check_on x operation sequences x state flips)",
+              list(F.fam_inv(res.tier, rng)), ic, require_outcomes=["ret", "Violation"])
+    call_unit(res, "subclass constructors calling the base constructor; members added by the subclass",
+              list(F.fam_inv_sub(res.tier, rng)), ic, require_outcomes=["ret", "Violation"])
